@@ -440,7 +440,7 @@ class yanny(OrderedDict):
             if len(definition) != 1:
                 return None
             typere = re.compile(
-                r'(\S+)\s+{0}([\[<].*[\]>]|);'.format(variable))
+                r'(\S+)\s+{0}([\[<][^;]*[\]>]|);'.format(variable))
             (typ, array) = typere.search(definition[0]).groups()
             var_type = typ + array.replace('<', '[').replace('>', ']')
             cache[variable] = var_type
